@@ -72,10 +72,10 @@ fn launch(l: &Listener, id: u8, book: &Rc<RefCell<Book>>, log: &SharedLog) {
                     Ok(mut s) => {
                         let port = s.local_addr().map(|a| a.port()).unwrap_or(0);
                         book.borrow_mut().launched.insert(id, port);
-                        book.borrow_mut().clients_connected += 1;
                         if let Err(e) = s.write_all([id]).await.0 {
                             log.violate("C14/accept/client-write-error", format!("client {id}: {e}"));
                         }
+                        book.borrow_mut().clients_connected += 1;
                         // every yielded connection is kept open by the acceptor until the case is over:
                         // end of stream / reset seen by the client before that means the connection was
                         // accepted and then closed without ever being yielded
@@ -96,10 +96,10 @@ fn launch(l: &Listener, id: u8, book: &Rc<RefCell<Book>>, log: &SharedLog) {
             compio_runtime::spawn(async move {
                 match UnixStream::connect(&path).await {
                     Ok(mut s) => {
-                        book.borrow_mut().clients_connected += 1;
                         if let Err(e) = s.write_all([id]).await.0 {
                             log.violate("C14/accept/client-write-error", format!("client {id}: {e}"));
                         }
+                        book.borrow_mut().clients_connected += 1;
                         // every yielded connection is kept open by the acceptor until the case is over:
                         // end of stream / reset seen by the client before that means the connection was
                         // accepted and then closed without ever being yielded
